@@ -352,7 +352,9 @@ def gen_stream(rng, idx, quick, seed, KdqTreeStreaming):
     Steering reads private fields of the copy (generator only; falls back to random choice when they are absent)."""
     import copy
     w = int([4, 8, 16][int(rng.integers(0, 3))])
-    p = float([0.0, .25, .5][int(rng.integers(0, 3))])
+    # persistence*window: whole numbers (`>` vs `>=` differ by a unit) and dyadic fractions .25/.5/.75 above a whole number
+    # (the counter is an integer: `c > x` must behave like `c > floor(x)`, not like a rounded bound) -- all exact in binary64
+    p = float([0.0, .25, .5, .1875, .4375, .3125][int(rng.integers(0, 6))])
     alpha = float([.01, .05, .2, .5][int(rng.integers(0, 4))])
     boot = int([1, 10, 40][int(rng.choice(3, p=[.3, .5, .2]))])
     ub = int([1, 2][int(rng.integers(0, 2))]) if w == 4 else int([1, 2, 4][int(rng.integers(0, 3))])
@@ -470,7 +472,7 @@ def fixed_streams():
     base = [[.1], [.4], [.6], [.9]]
     # reference = 4 spread points (count_ubound 1 -> 4 leaves); test: alternate bursts in one leaf / spread samples
     seq = base + base + [[.1]] * 3 + base * 2 + [[.9]] * 2 + base * 2 + [[.1]] * 6 + base
-    for p in (0.0, .25, .5):
+    for p in (0.0, .25, .5, .4375):
         for alpha in (.5, .2):
             out.append({"id": 900000 + len(out), "name": f"fx-{p}-{alpha}", "mode": "stream", "window": w, "persistence": p, "alpha": alpha, "boot": 10,
                         "count_ubound": 1, "cplb": 2e-10, "m": 1, "stream": [float(v[0]) for v in seq]})
